@@ -153,6 +153,37 @@ def build_job_graphs(world, profs):
     return out
 
 
+def build_task_graphs(world, profs):
+    """Trace-replay style TaskGraphs built directly from Tasks (no JobGraph), as TaskLoaderPylot produces them: every
+    operator has one Task per timestamp; the operators of one timestamp are connected as the jobs say; a non-pipelined
+    operator's Task of timestamp t additionally depends on the same operator's Task of timestamp t-1.  Sources of a
+    timestamp are released at start + t * period; with `own_release` every Task carries that release time."""
+    N = ns()
+    out = []
+    for g in world.get("tgraphs", []):
+        names = [j["name"] for j in g["jobs"]]
+        has_parent = {c for j in g["jobs"] for c in j.get("children", [])}
+        jobs = {j["name"]: N.Job(name=j["name"], profile=profs[j["profile"]]) for j in g["jobs"]}
+        tasks = {}
+        for ts in range(g["timestamps"]):
+            rel = g.get("start", 0) + ts * g["period"]
+            for n in names:
+                own = n not in has_parent or g.get("own_release", False)
+                tasks[(n, ts)] = N.Task(
+                    name=n, task_graph=g["name"], job=jobs[n], deadline=us(rel + g["deadline"]), timestamp=ts,
+                    release_time=us(rel) if own else N.EventTime(-1, N.EventTime.Unit.US),
+                )
+        mapping = {}
+        for ts in range(g["timestamps"]):
+            for j in g["jobs"]:
+                ch = [tasks[(c, ts)] for c in j.get("children", [])]
+                if not j.get("pipelined", g.get("pipelined", False)) and ts + 1 < g["timestamps"]:
+                    ch.append(tasks[(j["name"], ts + 1)])
+                mapping[tasks[(j["name"], ts)]] = ch
+        out.append(N.TaskGraph(name=g["name"], tasks=mapping))
+    return out
+
+
 def build_pools(world):
     N = ns()
     pools = []
@@ -204,9 +235,17 @@ class BatchedLoader:
         if self._interval > 0:
             n = sum(1 for tg in self._pending if rel(tg) < now + self._interval)
         else:
+            # the simulator polls again one microsecond after the latest release time among the tasks it released for
+            # this batch: every graph that starts up to that instant has to be in the batch too (a trace-replay graph
+            # releases sources of later timestamps long after its first one)
             n = min(self._count, len(self._pending))
-            while n < len(self._pending) and rel(self._pending[n]) == rel(self._pending[n - 1]):
-                n += 1
+            while True:
+                horizon = max([rel(self._pending[n - 1])] + [t.release_time.to(self._us).time for tg in self._pending[:n]
+                                                             for t in tg.get_releasable_tasks() if not t.release_time.is_invalid()])
+                m = sum(1 for tg in self._pending if rel(tg) <= horizon)
+                if m <= n:
+                    break
+                n = m
         batch, self._pending = self._pending[:n], self._pending[n:]
         for tg in batch:
             self._out.add_task_graph(tg)
@@ -299,6 +338,8 @@ def build(world):
                     t = tg.get_task(tname)
                     t._release_time = us(rel)
                     t._intended_release_time = us(rel)
+    for tg in build_task_graphs(world, profs):
+        workload.add_task_graph(tg)
     pools = build_pools(world)
     sched = build_scheduler(world, flags, sc)
     loader = make_loader(workload, world, flags, fl)
@@ -389,7 +430,7 @@ def shape_jobs(shape, rnd, nprof):
     raise ValueError(shape)
 
 
-def gen_world(rnd: random.Random, *, kinds=("edf", "fifo", "lsf", "hostile"), max_graphs=2, closed_loop=True):
+def gen_world(rnd: random.Random, *, kinds=("edf", "fifo", "lsf", "hostile"), max_graphs=2, closed_loop=True, extras=True):
     res_names = ["gpu"] if rnd.random() < 0.6 else ["gpu", "cpu"]
     nprof = rnd.randint(1, 3)
     profiles = []
@@ -401,7 +442,7 @@ def gen_world(rnd: random.Random, *, kinds=("edf", "fifo", "lsf", "hostile"), ma
         profiles.append({"name": f"P{k}", "strats": strats})
     graphs = []
     for gi in range(rnd.randint(1, max_graphs)):
-        shape = rnd.choice(SHAPES)
+        shape = rnd.choice(SHAPES if extras else [x for x in SHAPES if x != "rand_dag"])
         pt = rnd.choice(["fixed", "fixed", "periodic", "closed_loop" if closed_loop else "fixed"])
         if pt == "fixed":
             pol = {"type": "fixed", "period": rnd.randint(1, 8), "n": rnd.randint(1, 3), "start": rnd.randint(0, 4)}
@@ -444,8 +485,16 @@ def gen_world(rnd: random.Random, *, kinds=("edf", "fifo", "lsf", "hostile"), ma
     # conditionals resolved at submission (C07): the branch that runs is fixed when the task graph is created
     if any(j.get("cond") for g in graphs for j in g["jobs"]) and rnd.random() < 0.35:
         flags["resolve_conditionals"] = True
+    # a trace-replay style task graph (no JobGraph): one Task per operator and timestamp, non-pipelined operators chained
+    # across timestamps, optionally every Task with its own release time
+    if extras and rnd.random() < 0.15:
+        ops = rnd.choice([[("Cam", ["Det"]), ("Det", [])], [("Cam", ["Det", "Loc"]), ("Det", ["Plan"]), ("Loc", ["Plan"]), ("Plan", [])],
+                          [("Src", [])], [("A", ["B"]), ("B", ["C"]), ("C", [])]])
+        w["tgraphs"] = [{"name": "T0", "jobs": [{"name": n, "profile": rnd.randrange(nprof), "children": ch, "pipelined": rnd.random() < 0.4} for n, ch in ops],
+                         "timestamps": rnd.randint(2, 4), "period": rnd.randint(3, 10), "start": rnd.randint(0, 5), "deadline": rnd.choice([15, 40, 100]),
+                         "own_release": rnd.random() < 0.3}]
     # the workload arrives in several UPDATE_WORKLOAD batches (loaders that add to the same Workload on every call)
-    if rnd.random() < 0.2:
+    if extras and rnd.random() < 0.2:
         w["loader"] = {"kind": "batched", "count": rnd.randint(1, 2)}
         flags["update_interval"] = rnd.choice([-1, -1, 3, 7])
     return w
@@ -643,6 +692,39 @@ def directed_worlds():
             {"at": 30, "decs": [{"do": "evict", "profile": "M0", "pool": 1, "time": 31}]}]},
         "flags": {"timeout": 100, "frequency": 2}, "seed": 1,
     })
+    # a profile is loaded again, with a larger loading strategy, while its first load is still pending (the worker
+    # allocates again under the same profile and records the latest strategy; the eviction releases everything); another
+    # model and a task follow on the capacity that is left
+    out.append({
+        "name": "reload_pending_profile",
+        "profiles": [{"name": "M0", "strats": [{"dem": gpu1, "rt": 3, "bs": 1}],
+                      "loading": [{"dem": [R("mem", "any", 2)], "rt": 10, "bs": 1}, {"dem": [R("mem", "any", 5)], "rt": 3, "bs": 1}]},
+                     {"name": "M1", "strats": [{"dem": gpu1, "rt": 2, "bs": 1}], "loading": [{"dem": [R("mem", "any", 5)], "rt": 2, "bs": 1}]}],
+        "graphs": [{"name": "G0", "jobs": [{"name": "A", "profile": 0}], "policy": {"type": "fixed", "period": 1, "n": 1, "start": 12}, "dv": [0, 0]},
+                   {"name": "G1", "jobs": [{"name": "B", "profile": 1}], "policy": {"type": "fixed", "period": 1, "n": 1, "start": 12}, "dv": [0, 0]},
+                   # releases at 2, 4, 6 wake the scheduler up while the first load is pending
+                   {"name": "G2", "jobs": [{"name": "C", "profile": 1}], "policy": {"type": "fixed", "period": 2, "n": 3, "start": 2}, "dv": [0, 0]}],
+        "pools": [[[I("gpu", "g1", 2), I("mem", "m1", 12)]]],
+        "sched": {"kind": "scripted", "runtime": 0, "lookahead": 0, "script": [
+            {"at": 0, "decs": [{"do": "load", "profile": "M0", "pool": 1, "worker": 1, "time": 1, "strategy": 1}]},
+            {"at": 2, "decs": [{"do": "load", "profile": "M0", "pool": 1, "worker": 1, "time": 3, "strategy": 2}]},
+            {"at": 4, "decs": [{"do": "load", "profile": "M1", "pool": 1, "worker": 1, "time": 5}]},
+            {"at": 12, "decs": [{"task": "A@G0@0", "do": "place", "time": 13}, {"task": "B@G1@0", "do": "place", "time": 13}]},
+            {"at": 20, "decs": [{"do": "evict", "profile": "M0", "pool": 1, "time": 21}]}]},
+        "flags": {"timeout": 100, "frequency": 2}, "seed": 1,
+    })
+    # trace-replay style task graphs (no JobGraph): a non-pipelined Camera (15us, a frame every 10us) feeding a Detector
+    # over 4 timestamps: Camera@t depends on Camera@t-1 only ("source" in the sense of TaskGraph.is_source_task) and must
+    # still wait for it; under EDF, and under a policy that plans the later frames ahead while the earlier ones run
+    for nm, sched in (("multi_timestamp_edf", {"kind": "edf", "runtime": 0}),
+                      ("multi_timestamp_planahead", {"kind": "hostile", "runtime": 0, "cancel_rate": 0.0, "lookahead": 30, "rtg": True}),
+                      ("multi_timestamp_planahead_retract", {"kind": "hostile", "runtime": 1, "cancel_rate": 0.1, "lookahead": 25, "retract": True})):
+        out.append({
+            "name": nm, "profiles": [P(15), P(4)], "graphs": [],
+            "tgraphs": [{"name": "T0", "jobs": [{"name": "Camera", "profile": 0, "children": ["Detector"]}, {"name": "Detector", "profile": 1}],
+                         "timestamps": 4, "period": 10, "start": 0, "deadline": 60, "pipelined": False}],
+            "pools": [[[I("gpu", "g1", 2)], [I("gpu", "g2", 1)]]], "sched": sched, "flags": {"timeout": 400, "frequency": 5 if sched["kind"] != "edf" else -1}, "seed": 3,
+        })
     # the frontier's completion estimates through a join reached by paths of unequal length: P1(10) -> M and
     # P2(100) -> X1 -> X2 -> M(20) -> G; an unrelated task O is released at t=50 and triggers an invocation while the
     # long path still runs: G (and M) must not be offered (lookahead 0), and with a lookahead exactly those tasks whose
